@@ -22,7 +22,7 @@
    every (key, cookie) is admitted by layer A - strictly, or through a
    known-finding deviation whose id is in KF. *)
 EXTENDS BlobStore, Json
-CONSTANTS Keys, Cookies, Datas, MetaSet, VTtl, MaxOps, KF, Algos, WithRestart, WithRo
+CONSTANTS Keys, Cookies, Datas, MetaSet, VTtl, MaxOps, KF, Algos, WithRestart, WithRo, KeyOrderedScanIdx
 VARIABLES dat, idx, nm, ro, phase, cpd, cpx, mark, live, hist
 vars == <<dat, idx, nm, ro, phase, cpd, cpx, mark, live, hist>>
 
@@ -46,7 +46,7 @@ Init == /\ dat = <<>> /\ idx = <<>> /\ nm = <<>> /\ ro = FALSE /\ phase = "idle"
 
 (* ---------------- GET handler: readNeedle + cookie comparison ---------------- *)
 ReadRes(k, c) ==
-  IF ~Has(nm, k) \/ nm[k].off = 0 THEN [st |-> "notfound", d |-> "e", m |-> "m0"]
+  IF ~Has(nm, k) \/ nm[k].off = 0 \/ nm[k].off > Len(dat) THEN [st |-> "notfound", d |-> "e", m |-> "m0"]
   ELSE IF Deleted(nm[k].size) THEN [st |-> "notfound", d |-> "e", m |-> "m0"]
   ELSE IF nm[k].size = 0 THEN [st |-> "data", d |-> "e", m |-> "m0"]     \* record never read
   ELSE IF dat[nm[k].off].c # c THEN [st |-> "notfound", d |-> "e", m |-> "m0"]
@@ -96,23 +96,33 @@ Load(ix, f) ==
        ELSE IF Has(f, e.k) /\ Valid(f[e.k].size)
             THEN Load(Tail(ix), Put(f, e.k, [off |-> f[e.k].off, size |-> -1]))
             ELSE Load(Tail(ix), f)
+(* CheckAndFixVolumeDataIntegrity: the record of the last index entry is verified and the
+   data file is truncated right after it *)
+FixDat(d, ix) ==
+  IF ix = <<>> THEN d
+  ELSE LET e == ix[Len(ix)] IN
+       IF e.off # 0 /\ e.size >= 0 /\ e.off < Len(d) THEN SubSeq(d, 1, e.off) ELSE d
 ReloadGhost(l) == IF "C01-empty-lost-on-reload" \in KF THEN DropEmpties(l) ELSE l
 Restart == /\ phase = "idle" /\ ~ro
-           /\ nm' = Load(idx, <<>>)
+           /\ nm' = Load(idx, <<>>) /\ dat' = FixDat(dat, idx)
            /\ live' = ReloadGhost(live)
-           /\ UNCHANGED <<dat, idx, ro, phase, cpd, cpx, mark>>
+           /\ UNCHANGED <<idx, ro, phase, cpd, cpx, mark>>
 
 (* ---------------- compaction ---------------- *)
 SortedKeys(S) == CHOOSE s \in [1..Cardinality(S) -> S] : \A i, j \in 1..Cardinality(S) : i < j => s[i] < s[j]
-(* scan based: visit every record of the data file in order *)
+(* scan based: visit every record of the data file in order; the new index is written
+   in the order of the copied records (KeyOrderedScanIdx = TRUE models the index sorted by
+   key, as the code did before the fix "scan-based compaction writes the index in
+   data-file order": with it TLC finds the data loss at the reload after commit) *)
 RECURSIVE Scan(_, _, _)
 Scan(i, nd, nx) ==
   IF i > Len(dat) THEN <<nd, nx>>
   ELSE LET r == dat[i] IN
        IF r.kind = "put" /\ ~Filtered(r) /\ Has(nm, r.k) /\ nm[r.k].off = i /\ nm[r.k].size > 0
-       THEN Scan(i + 1, Append(nd, r), Put(nx, r.k, [off |-> Len(nd) + 1, size |-> nm[r.k].size]))
+       THEN Scan(i + 1, Append(nd, r), Append(nx, [k |-> r.k, off |-> Len(nd) + 1, size |-> nm[r.k].size]))
        ELSE Scan(i + 1, nd, nx)
-IdxOf(f) == LET ks == SortedKeys(DOMAIN f) IN [i \in 1..Len(ks) |-> [k |-> ks[i], off |-> f[ks[i]].off, size |-> f[ks[i]].size]]
+SortByKey(ix) == LET ks == SortedKeys({ix[i].k : i \in 1..Len(ix)})
+                 IN [j \in 1..Len(ks) |-> CHOOSE e \in {ix[i] : i \in 1..Len(ix)} : e.k = ks[j]]
 (* index based: replay the index into a MemDb, visit ascending *)
 RECURSIVE MemLoad(_, _)
 MemLoad(ix, f) == IF ix = <<>> THEN f
@@ -128,7 +138,7 @@ CopyAll(ks, f, nd, nx) ==
 Compact(algo) ==
   /\ phase = "idle" /\ ~ro
   /\ IF algo = 1
-     THEN LET r == Scan(1, <<>>, <<>>) IN cpd' = r[1] /\ cpx' = IdxOf(r[2])
+     THEN LET r == Scan(1, <<>>, <<>>) IN cpd' = r[1] /\ cpx' = IF KeyOrderedScanIdx THEN SortByKey(r[2]) ELSE r[2]
      ELSE LET f == MemLoad(idx, <<>>)
               r == CopyAll(SortedKeys(DOMAIN f), f, <<>>, <<>>)
           IN cpd' = r[1] /\ cpx' = r[2]
@@ -151,10 +161,10 @@ Apply(es, nd, nx) ==
        ELSE Apply(Tail(es), Append(nd, Tomb(e.k)), Append(nx, [k |-> e.k, off |-> 0, size |-> e.size]))
 CommitGhost(l) ==
   LET l1 == IF "C04-empty-dropped" \in KF THEN DropEmpties(l) ELSE l
-  IN IF "C04-ttl-filter" \in KF THEN DropTtl(l1, VTtl) ELSE l1
+  IN IF "C04-ttl-filter" \in KF THEN DropTtl(l1, VTtl, {idx[i].k : i \in (mark + 1)..Len(idx)}) ELSE l1
 Commit == /\ phase = "compacted"
           /\ LET r == Apply(Newest(Len(idx), {}, <<>>), cpd, cpx)
-             IN dat' = r[1] /\ idx' = r[2] /\ nm' = Load(r[2], <<>>)
+             IN dat' = FixDat(r[1], r[2]) /\ idx' = r[2] /\ nm' = Load(r[2], <<>>)
           /\ phase' = "idle" /\ cpd' = <<>> /\ cpx' = <<>> /\ mark' = 0
           /\ live' = CommitGhost(live)
           /\ UNCHANGED ro
